@@ -129,11 +129,13 @@ pub struct Printer {
     pub text: String,
     pub row: u32,
     pub col: u32,
+    /// blanks in front of the statement that starts the given row
+    pub indents: std::collections::HashMap<u32, u32>,
 }
 
 impl Printer {
     pub fn new() -> Self {
-        Printer { text: String::new(), row: 1, col: 1 }
+        Printer { text: String::new(), row: 1, col: 1, indents: std::collections::HashMap::new() }
     }
     fn put(&mut self, t: &str) {
         self.text.push_str(t);
@@ -221,6 +223,11 @@ impl Printer {
     }
 
     pub fn stmt(&mut self, st: &mut S) {
+        if self.col == 1 {
+            if let Some(n) = self.indents.get(&self.row).copied() {
+                self.put(&" ".repeat(n as usize));
+            }
+        }
         st.pos = self.here();
         match &mut st.k {
             SK::IfLine(c, thn, els) => {
@@ -384,6 +391,15 @@ impl Printer {
             }
         }
     }
+}
+
+pub fn print_program_with_indents(p: &mut Vec<S>, indents: &[(u32, u32)]) -> String {
+    let mut pr = Printer::new();
+    pr.indents = indents.iter().copied().collect();
+    for st in p.iter_mut() {
+        pr.stmt(st);
+    }
+    pr.text
 }
 
 pub fn print_program(p: &mut Vec<S>) -> String {
@@ -579,6 +595,50 @@ pub fn nest_matrix(rng: &mut Rng, all: bool, sample: usize) -> Vec<(String, Vec<
         v.push(rest.swap_remove(k));
     }
     v
+}
+
+
+// ------------------------------------------------------------------ statements whose positions look alike
+
+/// two constructs of the same kind at (row 1, column c) and (row 1c', column c'') such that the
+/// digits of row and column read the same when written one after the other ((1, 11) and (11, 1),
+/// (1, 12) and (11, 2)): everything derived from a position must still keep them apart. The first
+/// construct does not run its block, the second does.
+pub fn lookalike_programs() -> Vec<(Vec<S>, Vec<(u32, u32)>)> {
+    let mut out = vec![];
+    for kind in 0..NEST_KINDS {
+        for (col1, col2) in [(11u32, 1u32), (12, 2), (13, 3)] {
+            let mut cs = vec![];
+            // first construct at row 1: made not to reach its block where the kind allows it
+            let first: Vec<S> = match kind {
+                0 => vec![s(SK::For("Q1%".into(), lit_i(2), lit_i(1), None, vec![print_str("one")]))],
+                1 => vec![s(SK::For("Q1%".into(), lit_i(1), lit_i(2), Some(lit_i(-1)), vec![print_str("one")]))],
+                2 => vec![s(SK::For("Q1&".into(), lit_i(30), lit_i(10), Some(lit_i(20)), vec![print_str("one")]))],
+                3 => vec![s(SK::While(bin(Operator::Less, lit_i(2), lit_i(1)), vec![print_str("one")]))],
+                4 => vec![s(SK::Do(true, false, bin(Operator::Less, lit_i(2), lit_i(1)), vec![print_str("one")]))],
+                5 => vec![s(SK::If(bin(Operator::Equal, lit_i(1), lit_i(2)), vec![print_str("one")], vec![], None))],
+                6 => vec![s(SK::If(bin(Operator::Equal, lit_i(1), lit_i(2)), vec![print_str("one")], vec![(bin(Operator::Equal, lit_i(1), lit_i(3)), vec![print_str("uno")])], None))],
+                7 => vec![s(SK::If(bin(Operator::Equal, lit_i(1), lit_i(1)), vec![print_str("yes")], vec![], Some(vec![print_str("one")])))],
+                8 => vec![s(SK::Select(lit_i(5), vec![(vec![CaseE::Simple(lit_i(9))], vec![print_str("one")]), (vec![CaseE::Range(lit_i(1), lit_i(3))], vec![print_str("uno")])], None))],
+                _ => vec![s(SK::Select(lit_i(1), vec![(vec![CaseE::Simple(lit_i(1))], vec![print_str("yes")])], Some(vec![print_str("one")])))],
+            };
+            let mut prog = first;
+            // the number of rows used so far is known only after printing: print once to count
+            let rows_used = print_program(&mut prog.clone()).lines().count() as u32;
+            let target_row = 10 + col2; // rows 11, 12, 13 pair with columns 1, 2, 3
+            // (loops of nest_wrap print "two" more than once: fine, the reference says how often;
+            // WHILE / DO come with a counter initialisation in front of the construct itself)
+            let mut second = nest_wrap(kind, 2, vec![print_str("two")], &mut cs);
+            let extra = second.len() as u32 - 1;
+            for _ in (rows_used + extra)..(target_row - 1) {
+                prog.push(print_str("-"));
+            }
+            prog.append(&mut second);
+            prog.push(print_str("end"));
+            out.push((prog, vec![(1, col1 - 1), (target_row, col2 - 1)]));
+        }
+    }
+    out
 }
 
 // ------------------------------------------------------------------ Coq printers
@@ -1295,8 +1355,16 @@ pub fn run(args: &Args) {
     let nests = nest_matrix(&mut rng, args.thorough(), 60);
     let n_nests = nests.len();
     let mut nests = nests.into_iter();
-    for k in 0..(n + n_nests) {
-        let mut prog = if let Some((_, p)) = nests.next() {
+    let lookalikes = lookalike_programs();
+    let n_look = lookalikes.len();
+    let mut lookalikes = lookalikes.into_iter();
+    for k in 0..(n + n_nests + n_look) {
+        let mut indents: Vec<(u32, u32)> = vec![];
+        let mut prog = if let Some((p, ind)) = lookalikes.next() {
+            sum.count("lookalike_position_programs");
+            indents = ind;
+            p
+        } else if let Some((_, p)) = nests.next() {
             sum.count("nesting_matrix_programs");
             p
         } else {
@@ -1309,7 +1377,7 @@ pub fn run(args: &Args) {
             }
             p
         };
-        let src = print_program(&mut prog);
+        let src = if indents.is_empty() { print_program(&mut prog) } else { print_program_with_indents(&mut prog, &indents) };
         evaluations += 1;
         let (igr, udts) = match compile_with_types(&src) {
             Ok(x) => x,
@@ -1389,6 +1457,6 @@ pub fn run(args: &Args) {
     sum.write(
         &args.out,
         evaluations,
-        "programs generated from the core grammar by a typed generator (expressions of depth <= 2 over the 13 binary and 2 unary operators, five value types, boundary literals; assignment, PRINT with separators, IF/ELSEIF/ELSE, WHILE, the four DO forms, FOR with positive, negative, absent and run-time computed STEP, SELECT CASE with simple/IS/range/multiple tests; in every third program DATA statements at random top-level places and READ statements anywhere (also in loops and branches) with items of all five types, so that conversions, Type mismatch, Overflow and Out of DATA occur; nesting depth 2 (quick) / 3 (thorough)); plus the nesting matrix: every (outer, middle, inner) triple over five loop kinds with different bounds and steps and five branch positions (THEN, ELSEIF, ELSE, a later CASE, CASE ELSE), the innermost block printing all enclosing counters - all 1000 triples (thorough) / the loop-branch-loop triples and a seeded sample (quick); run-time errors arise from the boundary literals (overflow, division by zero, zero step). For each program: literal comparison of the real instruction list and statement addresses with the Coq generator model; outcome (code, row, col), output bytes and final variables against the Coq VM model and against the big-step reference semantics. Cases whose output contains a number outside the exactly printable domain skip the byte comparison. Non-trivial = at least one control construct; distinct by instruction list.",
+        "programs generated from the core grammar by a typed generator (expressions of depth <= 2 over the 13 binary and 2 unary operators, five value types, boundary literals; assignment, PRINT with separators, IF/ELSEIF/ELSE, WHILE, the four DO forms, FOR with positive, negative, absent and run-time computed STEP, SELECT CASE with simple/IS/range/multiple tests; in every third program DATA statements at random top-level places and READ statements anywhere (also in loops and branches) with items of all five types, so that conversions, Type mismatch, Overflow and Out of DATA occur; nesting depth 2 (quick) / 3 (thorough)); plus 30 programs with two constructs of the same kind at positions whose digits read alike ((1, 11) and (11, 1) ...), plus the nesting matrix: every (outer, middle, inner) triple over five loop kinds with different bounds and steps and five branch positions (THEN, ELSEIF, ELSE, a later CASE, CASE ELSE), the innermost block printing all enclosing counters - all 1000 triples (thorough) / the loop-branch-loop triples and a seeded sample (quick); run-time errors arise from the boundary literals (overflow, division by zero, zero step). For each program: literal comparison of the real instruction list and statement addresses with the Coq generator model; outcome (code, row, col), output bytes and final variables against the Coq VM model and against the big-step reference semantics. Cases whose output contains a number outside the exactly printable domain skip the byte comparison. Non-trivial = at least one control construct; distinct by instruction list.",
     );
 }
